@@ -102,6 +102,25 @@ fn exec(ctx: &mut Ctx, ev: &Ev, rng: &mut Rng) {
                 let l = if m.xnor { Ecube::one() } else { Ecube::zero() };
                 ctx.check("e-constructors-agree", l == c, ev, "const", || "one()/zero() differ from from_vars".into());
             }
+            // the variable list in another order, and with an entry repeated: a repeated variable can only mean
+            // the set {x} (listed twice) or x ^ x (it cancels); anything else is not "the parity of its variables"
+            if k >= 1 {
+                let mut vs: Vec<usize> = want_vs.clone();
+                rng.shuffle(&mut vs);
+                let dup = vs[rng.below(vs.len())];
+                let mut with_dup = vs.clone();
+                with_dup.insert(rng.below(vs.len() + 1), dup);
+                match guard(|| (Ecube::from_vars(&vs, m.xnor), Ecube::from_vars(&with_dup, m.xnor))) {
+                    Outcome::Returned((shuffled, repeated)) => {
+                        ctx.check("e-constructors-agree", shuffled == c, ev, "from_vars-order", || format!("from_vars({:?}) differs from from_vars of the sorted list", vs));
+                        let cancelled = em(m.vars & !(1u32 << dup), m.xnor).real();
+                        ctx.check("e-constructors-agree", repeated == c || repeated == cancelled, ev, "from_vars-repeated", || {
+                            format!("from_vars({:?}, {}) = {:?} is neither the term over the listed set nor the term with the repeated variable cancelled", with_dup, m.xnor, EcubeM::of(&repeated))
+                        });
+                    }
+                    Outcome::Panicked(msg) => ctx.violate("no-panic", ev, "from_vars-list", format!("from_vars({:?}) panicked: {}", with_dup, msg)),
+                }
+            }
             let asg = assignments(n, m.vars, rng);
             match guard(|| asg.iter().map(|a| c.value(*a as usize)).collect::<Vec<bool>>()) {
                 Outcome::Returned(vals) => {
